@@ -131,3 +131,16 @@ Example is_exit_examples :
   is_exit_command (txt "(exitt)") = false /\ is_exit_command (txt "(echo ""exit"")") = false /\
   is_exit_command (txt "(exit)(exit)") = false.
 Proof. conj; vm_compute; reflexivity. Qed.
+
+(* the current tree (reader with a string-escape state, lexer with a rule for a single backslash): pipe_eq_file
+   without any guard on string literals *)
+Lemma pipe_eq_file_current_lemma : forall parse_ok exits parse_file_ok cs,
+  no_empty cs -> lex_valid (List.concat cs) = true ->
+  all_parse_ok parse_ok (List.concat cs) -> parse_file_ok (List.concat cs) = true ->
+  visible (pipe_events parse_ok exits cs) = file_events exits parse_file_ok (List.concat cs).
+Proof.
+  intros p e pf cs H1 H2 H3 H4.
+  apply pipe_visible_eq_file; auto.
+  - left. reflexivity.
+  - exact (lex_echo_from_fixed eq_refl _ LInit).
+Qed.
